@@ -24,7 +24,7 @@
 -/
 import Cav.Lemmas.SplitLemmas
 
-namespace Cav.C13
+namespace Cav.C13Split
 open Cav Num Gen Cav.SplitL Cav.BrentL
 
 /-! ## examples used below -/
@@ -572,4 +572,4 @@ example : isMonotonicSaddle (fun _ => (⟨1, 0⟩ : AD Rat)) 0 (1 / 100) = true 
 /-- ... and so does a strict local minimum probed with `tol = 0` -/
 example : isMonotonicSaddle sqr 0 0 = true := by decide +kernel
 
-end Cav.C13
+end Cav.C13Split
